@@ -39,7 +39,7 @@ m={
   "guard":"verif",
   "enable":"go build -tags verif -overlay /verif/build/<bin>/overlay.json -ldflags=-checklinkname=0 (the overlay adds app/zz_verif_prepare.go, generated at every build by /verif/cmd/genprep from the body of Prepare() in app/application.go; see /verif/build.sh)",
   "baseline_off_cmd":"cd /repo && GOFLAGS=-mod=mod go test -json -vet=off -count=1 -timeout 25m ./...",
-  "source_commits":["bef0da8","2e98790"],
+  "source_commits":["bef0da8","2e98790","91856ba","619057c"],
   "add_only":True
  },
  "engines":[
